@@ -287,6 +287,11 @@ type Framer struct {
 	// unfinished HEADERS/CONTINUATION.
 	lastHeaderStream uint32
 
+	// rejectedHeadersStream is the stream ID of the HEADERS frame for
+	// which the last call to ReadFrame returned a StreamError (malformed
+	// header list), or zero.
+	rejectedHeadersStream uint32
+
 	maxReadSize uint32
 	headerBuf   [frameHeaderLen]byte
 
@@ -484,6 +489,7 @@ func terminalReadFrameError(err error) bool {
 // reader.
 func (fr *Framer) ReadFrame() (Frame, error) {
 	fr.errDetail = nil
+	fr.rejectedHeadersStream = 0
 	if fr.lastFrame != nil {
 		fr.lastFrame.invalidate()
 	}
@@ -1558,11 +1564,13 @@ func (fr *Framer) readMetaFrame(f *HeadersFrame) (*MetaHeadersFrame, error) {
 	}
 	if invalid != nil {
 		fr.errDetail = invalid
+		fr.rejectedHeadersStream = mh.StreamID
 		errMsg := fmt.Sprintf("readMetaFrame err: %s", invalid)
 		return nil, StreamError{mh.StreamID, ErrCodeProtocol, errMsg}
 	}
 	if err := mh.checkPseudos(); err != nil {
 		fr.errDetail = err
+		fr.rejectedHeadersStream = mh.StreamID
 		errMsg := fmt.Sprintf("readMetaFrame err: %s", err)
 		return nil, StreamError{mh.StreamID, ErrCodeProtocol, errMsg}
 	}
